@@ -517,8 +517,44 @@ def rule_k(R, ctx, rid="C17.k"):
                  "never constructs %s::%s (its sibling tables do)" % (enum.rsplit("::", 1)[-1], sorted(want - got)))
 
 
+WHOLE_RENDERERS = (
+    "<yrs::types::text::TextRef as yrs::types::GetString>::get_string",
+    "<yrs::types::xml::XmlFragmentRef as yrs::types::GetString>::get_string",
+    "<yrs::types::xml::XmlElementRef as yrs::types::GetString>::get_string",
+    "<yrs::types::map::MapRef as yrs::types::ToJson>::to_json",
+)
+
+
+def rule_n(R, ctx, rid="C17.n"):
+    from ylib.formula import Formulas
+    Y = ctx.yrs
+    R.rule(rid, "R-SCAN a rendering of the WHOLE collection ends only where the collection ends: every exit of every loop of "
+                "TextRef::get_string, XmlFragmentRef / XmlElementRef::get_string and MapRef::to_json is the exhaustion of the walked "
+                "list or iterator (`.. is None`); no exit is decided by an accumulated length, a counter or a size hint — lengths are "
+                "kept in the configured offset unit, a String grows in bytes, and trailing live blocks would be cut off")
+    n = 0
+    for p in WHOLE_RENDERERS:
+        fn = Y.fn(p)
+        v = FnView(fn)
+        fm = Formulas(fn, simp_deep)
+        heads = sorted({h for (t, h) in fm.back_edges()})
+        for h in heads:
+            for (u, w) in loop_exit_edges(fn, h):
+                if fn.blocks[w].get("cleanup"):
+                    continue
+                lits = [l for l in v.lits if l.bb == u and l.to == w]
+                if not lits:
+                    continue   # fall-through edge of a nested construct, decided elsewhere
+                n += 1
+                ok = all(l.polarity == "None" or (isinstance(l.polarity, tuple) or "not in" in l.desc) for l in lits)
+                R.ob(rid, fn, "exit:bb%d" % u if not ok else "exit#%d" % n, ok,
+                     "leaves the loop on exhaustion" if ok else "the walk is left early under %s" % [l.desc[:140] for l in lits])
+    R.floor(rid, "loop exits of whole-collection renderings", n, 6)
+
+
 def check(ctx, R):
     from . import shared as _sh
+    R.run("C17.n", rule_n, ctx)
     R.run("C17.m", lambda R, c: _sh.api_delegations(
         R, c, "C17.m", _sh.READ_DELEGATIONS,
         "R-PROV the read entry points construct their walkers over the receiver itself: siblings starts at the node's own item, "
